@@ -36,6 +36,10 @@ def kinds(rootname):
         ("absolute component", [S + b"/outside/decoy"], "outside"),
         ("absolute component after plain ones", [b"d1", S + b"/outside/decoy"], "outside"),
         ("absolute component then ..", [S + b"/outside/x", b"..", b"decoy"], "outside-x"),
+        # added after seeded change C13-3 (screening that trims separators before validating): the absolute escape
+        # spelled one directory per component, only the first carrying the leading separator
+        ("absolute path split one directory per component", [vfy.PHSPLIT, b"outside", b"decoy"], "outside"),
+        ("split absolute path after plain ones", [b"d1", vfy.PHSPLIT, b"outside", b"decoy"], "outside"),
         ("descend then climb out", [b"d1", b"..", b"..", b"decoy"], "beside-d1"),
         (".. and back into the root (stays inside)", [b"..", rootname, b"inner"], "inner"),
         ("separator inside a component (stays inside)", [b"d1/inner"], "d1/inner"),
@@ -234,7 +238,7 @@ def finish(ctx):
         "SHA-1 and MD5 are functions of the bytes (Section variables)",
     ]
     return ctx.finish(
-        rule="multi-file torrents of 1-4 files in which one listed path is replaced by a hostile one: 18 kinds (.., ../.., absolute, "
+        rule="multi-file torrents of 1-4 files in which one listed path is replaced by a hostile one: 20 kinds (.., ../.., absolute, "
              "separator inside a component, empty, '.', trailing separator, NUL, climb-out after descent, out-and-back-in) x position "
              "(first/middle/last file) x the four content-root rules, each with a decoy holding exactly the bytes the torrent expects "
              "planted at the escaped location; hostile names for the root itself; ordinary torrents in between. A case is "
